@@ -412,6 +412,24 @@ def fail_problems(b, mode, rule, text, k, r):
 
 # ----------------------------------------------------------------------------- pool
 
+def _guarded(results, is_pool: bool, limit: float = 1500.0):
+    """Iterate over pool results, but never wait forever: if a worker process is killed from outside, its task is
+    lost and imap_unordered would block for good. After `limit` seconds without any result the run is reported
+    as a harness failure (a broken tie), not left hanging."""
+    if not is_pool:
+        yield from results
+        return
+    import multiprocessing
+    while True:
+        try:
+            yield results.next(timeout=limit)
+        except StopIteration:
+            return
+        except multiprocessing.TimeoutError:
+            yield {"fatal": f"no result from any worker for {limit:.0f} s: a worker process was lost", "case": {}}
+            return
+
+
 def run_cases(cases: list[dict], judges: list[str], opts: dict | None = None, nproc: int | None = None):
     opts = opts or {}
     nproc = nproc or NCPU
@@ -424,7 +442,8 @@ def run_cases(cases: list[dict], judges: list[str], opts: dict | None = None, np
     else:
         ctx = mp.get_context("fork")
         pool = ctx.Pool(nproc, initializer=_init)
-        results = pool.imap_unordered(run_case, args, chunksize=4)
+        results = pool.imap_unordered(run_case, args)
+    results = _guarded(results, nproc > 1)
     for r in results:
         if "fatal" in r:
             agg["fatal"].append(r)
@@ -450,6 +469,9 @@ def run_cases(cases: list[dict], judges: list[str], opts: dict | None = None, np
         if len(agg["labels"]) < 5:
             agg["labels"].append(r["label"])
     if nproc > 1:
-        pool.close()
+        if agg["fatal"]:
+            pool.terminate()
+        else:
+            pool.close()
         pool.join()
     return agg
